@@ -81,7 +81,7 @@ def hist_cache_control(W, ops, prng):
             else:
                 model[k] = str(int(v))
         elif op == "s":
-            a, v = prng.choice(CCS), prng.choice([True, False, None, "x", "a, b", 'q"uo', 5, 0, 2.5])
+            a, v = prng.choice(CCS), prng.choice([True, False, None, "x", "a, b", 'q"uo', 5, 0, 2.5, "", '""', " "])
             setattr(cc, a, v)
             hist.append((a, v))
             k = a.replace("_", "-")
@@ -97,7 +97,7 @@ def hist_cache_control(W, ops, prng):
             hist.append(("del", a))
             model.pop(a.replace("_", "-"), None)
         elif op == "item":
-            k, v = prng.choice(["max-age", "x-ext", "no-cache"]), prng.choice(["1", None, "a b"])
+            k, v = prng.choice(["max-age", "x-ext", "no-cache"]), prng.choice(["1", None, "a b", "", '""'])
             cc[k] = v
             hist.append(("item", k, v))
             model[k] = v
@@ -293,8 +293,9 @@ def hist_www(W, ops, prng):
             if op == "reget":
                 w = r.www_authenticate
             elif op == "set_param_item":
-                w["realm"] = "x y"
-                pr["realm"] = "x y"
+                rv = prng.choice(["x y", "x y", "", 'q"r', "a,b"])
+                w["realm"] = rv
+                pr["realm"] = rv
             elif op == "set_param_attr":
                 w.qop = "auth"
                 pr["qop"] = "auth"
@@ -421,9 +422,27 @@ def hist_content_range(W, ops, prng):
     cr = r.content_range
     m = None
     hist = []
+    prev = None  # a view obtained earlier and kept while the header was replaced by another route
     for op in ops:
         hist.append(op)
-        if op == "set":
+        if op in ("assign_str", "assign_none", "direct"):
+            prev = cr
+        if op == "restate_old":
+            # a mutation through the kept view that restates one of its own values: like every mutation through a view
+            # it writes that view to the header
+            if prev is not None and prev.units is not None:
+                a = prng.choice(["units", "start", "stop", "length"])
+                setattr(prev, a, getattr(prev, a))
+                cr = prev
+                m = (cr.units, cr.start, cr.stop, cr.length)
+        elif op == "two_views":
+            # two views of the same header; the first one changes it, the second one restates what it holds
+            if m and m[1] is not None and (m[2] or 0) <= 30:
+                a, b = r.content_range, r.content_range
+                a.length = 30
+                b.length = m[3]
+                cr = b
+        elif op == "set":
             cr.set(0, 5, 10)
             m = ("bytes", 0, 5, 10)
         elif op == "set_nolen":
@@ -491,7 +510,8 @@ def hist_content_range(W, ops, prng):
     return hist
 
 
-CR_OPS = ["set", "set_nolen", "set_units", "set_unsat", "set_unsat_zero", "unset", "set_invalid", "attr_len", "attr_start", "attr_stop", "units", "assign_str", "assign_none", "direct"]
+CR_OPS = ["set", "set_nolen", "set_units", "set_unsat", "set_unsat_zero", "unset", "set_invalid", "attr_len", "attr_start", "attr_stop", "units", "assign_str", "assign_none", "direct",
+          "restate_old", "two_views"]
 
 
 def hist_mimetype_params(W, ops, prng):
